@@ -60,6 +60,9 @@ ALL_OPS = ["tcycle", "fwd", "map", "mkkv", "vals", "filter", "flatmap", "unique"
 TICK_OPS = ["tcycle", "mkkv", "sort", "fold", "count", "first", "into_stream", "batch", "snapshot", "all_ticks",
             "latest", "defer", "kfold", "kfold_snap", "kreduce", "chain", "cross_single", "filter_if_some",
             "unwrap_or", "zip", "map_ref", "out"]
+# development knob (sandbox mutation runs of the production half only): skip the trybuild-based
+# simulator builds.  Never set by ./check users; the evidence records it.
+NO_SIM = bool(os.environ.get("VERIF_HYDROPROG_NO_SIM"))
 TRIVIAL_OPS = {"in1", "in2", "out", "map", "mkkv", "vals", "filter", "flatmap", "unique", "enum", "weaken", "assume"}
 
 
@@ -288,7 +291,12 @@ def run(tier):
     if p.returncode != 0:
         raise vlib.ToolError("progc prod failed: " + p.stderr[-2000:])
     prod_rows = [e for e in vlib.read_ndjson(prod_out) if e["e"] != "eof"]
-    sim_names = [n for n, _, _ in progs][:(10 + 30 + 80) if thorough else 40]
+    run_out = os.path.join(d, "run.ndjson")
+    p = vlib.run_bin(os.path.join(bindir, "progc"), ["run", run_out, "all+" if thorough else "all"], timeout=3000)
+    if p.returncode != 0:
+        raise vlib.ToolError("progc run failed: " + p.stderr[-2000:])
+    run_rows = vlib.read_ndjson(run_out)
+    sim_names = [] if NO_SIM else [n for n, _, _ in progs][:(10 + 30 + 80) if thorough else 40]
     nproc = 6
 
     def sim_slice(i):
@@ -306,19 +314,27 @@ def run(tier):
     lap("both builders run")
     # ---- (5) TLC validates the log ---------------------------------------------------------------
     simset = set(sim_names)
+    runset = {n for n, _, t in progs if (gen.runnable(t) if t is not None else n in gen.HAND_RUNNABLE)}
     term_rows = [{"e": "term", "id": n, "hand": t is None, "expect": e if t is None else "", "term": t or [],
-                  "builders": ["prod", "sim"] if n in simset else ["prod"]} for n, e, t in progs]
+                  "builders": ["prod"] + (["sim"] if n in simset else []) + (["run"] if n in runset else [])}
+                 for n, e, t in progs]
     listed = {n for n, _, _ in progs}
     prod_rows = [e for e in prod_rows if e["prog"] in listed]
-    rows = term_rows + prod_rows + sim_rows
+    run_rows = [e for e in run_rows if e["prog"] in listed]
+    rows = term_rows + prod_rows + run_rows + sim_rows
     viol, stats = _validate(rows, d, "log", res)
     by_prog = {n: t for n, _, t in progs}
     prod_of = {e["prog"]: e for e in prod_rows if e["e"] == "prod"}
     sim_of = {e["prog"]: e for e in sim_rows}
     tool = [(pr, r) for pr, r in viol if r.startswith("TOOL:")]
-    if tool:
+    prop = [(pr, r) for pr, r in viol if r.startswith("C41:")]
+    if tool and not prop:
         raise vlib.ToolError("harness inconsistency reported by HydroProgTrace: %s" % tool[:5])
     for pr, rule in sorted(viol):
+        if rule.startswith("TOOL:"):
+            # reported next to property-level violations: keep it visible, the violations decide
+            res.drift.append({"program": pr, "harness": rule[5:]})
+            continue
         ev = {"term": by_prog.get(pr), "events": _events_of(rows, pr), "rustc": rustc_err.get(pr, "")}
         if rule.startswith("NOTE:"):
             res.drift.append({"program": pr, "fact": rule[5:]})
@@ -331,6 +347,8 @@ def run(tier):
             cls = _msg_class(sim_of.get(pr, {}).get("msg"))
         elif "does-not-compile" in rule:
             cls = _msg_class(rustc_err.get(pr, ""))
+        elif "panics-when-run" in rule:
+            cls = _msg_class(next((e["msg"] for e in run_rows if e["prog"] == pr), ""))
         else:
             cls = "structure"
         res.violation("hydroprog/%s/%s" % (short, cls),
@@ -341,7 +359,7 @@ def run(tier):
     # ---- evidence ----------------------------------------------------------------------------------
     gen_terms = [t for _, _, t in progs if t is not None]
     res.evaluations = len(progs)
-    res.traces = len([e for e in prod_rows if e["e"] == "prod"]) + len(sim_rows)
+    res.traces = len([e for e in prod_rows if e["e"] == "prod"]) + len(sim_rows) + len(run_rows)
     res.distinct_nontrivial = len({gen.term_name(t) for t in gen_terms if _nontrivial(t)}) + \
         len([1 for n, e, t in progs if t is None])
     res.rule = ("programs = well-typed HydroProg terms (TLC: exhaustive up to %d statements, -simulate up to 9) sampled "
@@ -350,12 +368,15 @@ def run(tier):
                 "(aggregation, tick boundary, binary operator, cycle, reference, network); distinct by term"
                 % (5 if thorough else 4, len(sim_names)))
     res.extra["exhaustive"] = False
+    if NO_SIM:
+        res.extra["simulator_builder_skipped"] = "VERIF_HYDROPROG_NO_SIM set (development knob)"
     res.extra["programs_enumerated_exhaustively"] = n_exh
     res.extra["pool"] = len(pool_t)
     res.extra["graphs_validated"] = stats["graphs"]
     res.extra["graphs_without_same_tick_cycle"] = stats["accepted"]
     res.extra["operators_covered"] = sorted({s["op"] for t in gen_terms for s in t})
     res.extra["rustc_rejected"] = sorted(rustc_err)
+    res.extra["programs_instantiated_and_run"] = len([e for e in run_rows if e["verdict"] == "ok"])
     for n, e, t in progs:
         if t is not None and len(res.samples) < 3 and len(t) >= 7:
             res.samples.append({"kind": "well-typed term with the builders' verdicts", "name": n,
@@ -383,7 +404,12 @@ def _canaries(rows, d, res):
     import copy
     can = copy.deepcopy(rows)
     # (a) a failed simulator build of a well-typed program
-    ta = next(e for e in can if e["e"] == "sim" and e["verdict"] == "ok" and e["prog"].startswith("h_"))
+    ta = next((e for e in can if e["e"] == "sim" and e["verdict"] == "ok"), None)
+    if ta is None:      # no simulator rows (development knob): corrupt a production verdict instead
+        ta = next(e for e in can if e["e"] == "prod" and e["verdict"] == "ok" and e["prog"].startswith("h_pipe"))
+        rule_a = "C41:production-generator-failed-on-well-typed-program"
+    else:
+        rule_a = "C41:simulator-builder-failed-on-well-typed-program"
     ta["verdict"], ta["msg"] = "panic", "canary"
     # (b) an emitted graph whose subgraph order is reversed
     tb = next(e for e in can if e["e"] == "prog" and e["prog"] == "h_tee_state_and_tick")
@@ -393,13 +419,13 @@ def _canaries(rows, d, res):
     s3 = tc["term"][2]
     s3["ty"] = dict(s3["ty"], e="kv" if s3["ty"]["e"] == "i" else "i")
     v, _ = _validate(can, d, "canary", None)
-    if (ta["prog"], "C41:simulator-builder-failed-on-well-typed-program") not in v:
-        raise vlib.ToolError("canary (failed simulator build) was NOT flagged: %s" % v[:3])
+    if (ta["prog"], rule_a) not in v:
+        raise vlib.ToolError("canary (failed build of a well-typed program) was NOT flagged: %s" % v[:3])
     if not any(pr == tb["prog"] and r.startswith("C41:graph:C18:order") for pr, r in v):
         raise vlib.ToolError("canary (reversed subgraph order) was NOT flagged: %s" % v[:3])
     if not any(pr == tc["id"] and r.startswith("TOOL:generated-term-is-not-well-typed") for pr, r in v):
         raise vlib.ToolError("canary (ill-typed term) was NOT rejected by WellTyped: %s" % v[:3])
-    res.extra["canary"] = ("corrupted log flagged: failed simulator build of %s; reversed subgraph order of %s; "
+    res.extra["canary"] = ("corrupted log flagged: failed build of %s; reversed subgraph order of %s; "
                            "ill-typed statement 3 of %s" % (ta["prog"], tb["prog"], tc["id"]))
 
 
